@@ -685,7 +685,7 @@ func ashiftRule(w *World, r *Report) {
 		return
 	}
 	var shl, shr []*ssa.BinOp
-	bad := ""
+	bad, other := "", ""
 	instrs(f, func(in ssa.Instruction) {
 		switch x := in.(type) {
 		case *ssa.BinOp:
@@ -694,16 +694,29 @@ func ashiftRule(w *World, r *Report) {
 				shl = append(shl, x)
 			case token.SHR:
 				shr = append(shr, x)
-			case token.QUO, token.REM, token.MUL:
-				bad = "uses " + x.Op.String() + " (" + shortInstr(x) + ")"
+			case token.QUO, token.REM:
+				// division of the index truncates toward zero
+				if stripConv(x.X) == ssa.Value(f.Params[0]) {
+					bad = "uses " + x.Op.String() + " on the index (" + shortInstr(x) + ")"
+				} else {
+					other = "uses " + x.Op.String() + " (" + shortInstr(x) + ")"
+				}
+			case token.MUL:
+				// index * 2^shift (a table of powers of two) scales up exactly: not a shift the
+				// rule reads, not wrong either
+				other = "uses " + x.Op.String() + " (" + shortInstr(x) + ")"
 			}
 		case *ssa.Convert:
 			if !isSignedInt(x.Type()) || !isSignedInt(x.X.Type()) {
-				bad = "converts through a non-signed-integer type (" + shortInstr(x) + ")"
+				if stripConv(x.X) == ssa.Value(f.Params[0]) {
+					bad = "converts the index through a non-signed-integer type (" + shortInstr(x) + ")"
+				} else {
+					other = "converts through a non-signed-integer type (" + shortInstr(x) + ")"
+				}
 			}
 		case *ssa.Call:
 			if builtinName(x) == "" {
-				bad = "calls " + shortInstr(x)
+				other = "calls " + shortInstr(x)
 			}
 		}
 	})
@@ -711,6 +724,10 @@ func ashiftRule(w *World, r *Report) {
 	key := "common.CalculateArithmeticShift"
 	if bad != "" {
 		r.add("ASHIFT", key+" / body", pos, Violated, bad)
+		return
+	}
+	if other != "" {
+		r.add("ASHIFT", key+" / body", pos, Undecided, "the body is not the plain pair of shifts: "+other)
 		return
 	}
 	idx, sh := f.Params[0], f.Params[1]
@@ -746,7 +763,7 @@ func ashiftRule(w *World, r *Report) {
 		}
 		return "?"
 	}
-	var problems []string
+	var problems, unread []string
 	for _, reg := range []struct {
 		name   string
 		lo, hi float64
@@ -783,12 +800,20 @@ func ashiftRule(w *World, r *Report) {
 				}
 			}
 			if sp := shapeOf(v); !reg.accept[sp] {
-				problems = append(problems, fmt.Sprintf("for %s the result is %s", reg.name, describeValue(v)))
+				if sp == "?" {
+					unread = append(unread, fmt.Sprintf("for %s the result is %s", reg.name, describeValue(v)))
+				} else {
+					problems = append(problems, fmt.Sprintf("for %s the result is %s", reg.name, describeValue(v)))
+				}
 			}
 		}
 		if n == 0 {
-			problems = append(problems, "no return reachable for "+reg.name)
+			unread = append(unread, "no return reachable for "+reg.name)
 		}
+	}
+	if len(problems) == 0 && len(unread) > 0 {
+		r.add("ASHIFT", key+" / branches", pos, Undecided, "the result is not in a form the rule reads: "+strings.Join(unread, "; "))
+		return
 	}
 	if len(problems) > 0 {
 		r.add("ASHIFT", key+" / branches", pos, Violated, "shift direction is not selected by the sign of the shift parameter: "+strings.Join(problems, "; ")+" (expected index << shift for shift > 0, index >> -shift for shift < 0)")
